@@ -47,6 +47,10 @@ func c36Type(t string) backend.FileType {
 		return backend.SnapshotFile
 	case "index":
 		return backend.IndexFile
+	case "lock":
+		return backend.LockFile
+	case "key":
+		return backend.KeyFile
 	}
 	return backend.PackFile
 }
@@ -164,16 +168,24 @@ func c36Parse(log string, root string) (done []c36Call, inflight *c36Call) {
 }
 
 // c36Event maps a call to the model's event token ("" = irrelevant)
-func c36Event(c c36Call, tmpMark string) string {
+func c36Event(c c36Call, tmpMark string, finalName string) string {
 	ok := !strings.HasPrefix(c.Ret, "-1")
 	isTmp := strings.Contains(c.Args, tmpMark)
+	// the final name itself (not a temporary derived from it) is the target of the call
+	isFinal := !isTmp && strings.Contains(c.Args, finalName)
 	switch c.Name {
 	case "openat", "open", "creat":
-		if strings.Contains(c.Args, "O_CREAT") && isTmp {
+		if (strings.Contains(c.Args, "O_CREAT") || c.Name == "creat") && isTmp {
 			if ok {
 				return "create"
 			}
 			return "create-failed"
+		}
+		if isFinal && (c.Name == "creat" || strings.Contains(c.Args, "O_CREAT") || strings.Contains(c.Args, "O_WRONLY") || strings.Contains(c.Args, "O_RDWR") || strings.Contains(c.Args, "O_TRUNC")) {
+			if ok {
+				return "open-final-for-writing"
+			}
+			return ""
 		}
 		return "" // opening the directory for fsync etc.
 	case "mkdir", "mkdirat":
@@ -186,6 +198,9 @@ func c36Event(c c36Call, tmpMark string) string {
 		}
 		return ""
 	case "write", "pwrite64":
+		if isFinal && ok {
+			return "write-final:" + strings.Fields(c.Ret)[0]
+		}
 		if !isTmp {
 			return ""
 		}
@@ -278,7 +293,7 @@ func streamC36(h *H) {
 			sizes = append(sizes, 1+h.Intn(300000))
 		}
 	}
-	types := []string{"data", "snapshot", "index"}
+	types := []string{"data", "snapshot", "index", "lock", "key"}
 	caseNo := 0
 	for si, size := range sizes {
 		typ := types[(si+int(h.Seed))%len(types)]
@@ -367,7 +382,7 @@ func streamC36(h *H) {
 				h.Rec("data", Itoa(size), hex.EncodeToString(sum[:8]))
 				var evs []string
 				for _, c := range done {
-					if e := c36Event(c, "-tmp-"); e != "" {
+					if e := c36Event(c, "-tmp-", name); e != "" {
 						evs = append(evs, e)
 					}
 				}
@@ -378,7 +393,7 @@ func streamC36(h *H) {
 					if c.Name == "write" || c.Name == "pwrite64" {
 						c.Ret = "any"
 					}
-					h.Rec("inflight", c36Event(c, "-tmp-"))
+					h.Rec("inflight", c36Event(c, "-tmp-", name))
 				}
 				status := "killed"
 				if strings.Contains(cerr, "save-ok") {
